@@ -304,6 +304,33 @@ def w_support(task):
     return acc
 
 
+def w_history(task):
+    pol, v, pm, probes = task
+    acc = Acc()
+    case = {"polluter_message": pm, "polluter_flips": list(pol), "victim": v}
+    try:
+        decode_with_errors(bitarray(ref_encode(pm)), pol)
+        enc = BPTC19696.encode(bitarray(v))
+        if enc.to01() != ref_encode(v):
+            acc.violation("encode_depends_on_previous_decode", {**case, "diff": [i for i in range(N) if enc.to01()[i] != ref_encode(v)[i]][:8]},
+                          "the codeword of a message differs after an unrelated decode-with-repair")
+        rep_ = BPTC19696.repair_if_necessary(bitarray(ref_encode(v)))
+        if rep_.to01() != ref_encode(v):
+            acc.violation("errorfree_codeword_altered_by_repair_after_history", case)
+        bad = 0
+        for pat in probes:
+            decode_with_errors(bitarray(ref_encode(pm)), pol)
+            cw = BPTC19696.encode(bitarray(v))
+            if decode_with_errors(cw, pat).to01() != v:
+                bad += 1
+        if bad:
+            acc.violation("correctable_error_misdecoded_after_history", {**case, "patterns": bad})
+    except Exception as e:
+        acc.violation("exception_history:" + exc_sig(e), case, repr(e))
+    acc.case(nontrivial=True, calls=3 + 3 * len(probes), outcome=len(pol), sample=case if len(pol) == 2 else None)
+    return acc
+
+
 # ----------------------------------------------------------------------------------------------
 def run(only=None):
     global MSGS, BASES, CODEWORDS
@@ -473,6 +500,24 @@ def run(only=None):
             except Exception as e:
                 s.violation("exception_encode_again:" + exc_sig(e), case, repr(e))
             s.case(nontrivial=True, calls=6, outcome="ok", sample=case if len(s.samples) < 1 else None)
+        s.done()
+
+    if want("history_pollution"):
+        # histories: a decode-with-repair of a damaged block (errors in every class of position, incl. the reserved bits) directly
+        # followed by the obligations on an unrelated message -- shared scratch buffers / cached tables leak through here
+        s = rep.sub("history_pollution",
+                    "polluters = decode with repair of a codeword with 1-2 inverted bits (all 4 reserved positions alone and in pairs, "
+                    "+ info / parity / mixed positions) x 4 victim messages: encode(victim) == reference codeword, repair leaves it "
+                    "unaltered, all single errors and a cross-section of double errors on it still decode")
+        reserved = sorted(set(range(N)) - set(CELL_OF_TX)) + sorted(TX[r][c] for r in range(ROWS) for c in range(COLS) if r == 0 and c < 3)
+        polluters = [(p,) for p in reserved] + list(itertools.combinations(reserved, 2)) + [(INFO_TX[0],), (INFO_TX[40], INFO_TX[41]), (TX[12][14],), (TX[3][13], reserved[1])]
+        victims = ["0" * K, "1" * K, spaces.unit(K, 19), env.det_bits("c02-victim", K)]
+        pm = env.det_bits("c02-polluter-msg", K)
+        probes = [(i,) for i in range(N)] + [(i, (i * 37 + 11) % N) for i in range(N) if i != (i * 37 + 11) % N] + list(itertools.combinations(reserved, 2))
+        tasks = [(pol, v, pm, probes) for pol in polluters for v in victims]
+        s.declared = len(tasks)
+        for acc in par.pmap(w_history, tasks, nw):
+            s.merge(acc)
         s.done()
 
     rep.bounds = {
